@@ -38,6 +38,7 @@ type RunCfg struct {
 	Sequential  bool           `json:"sequential"`  // eligible for native replay
 	Notes       string         `json:"notes"`
 	ConcMax     int            `json:"conc_max"` // max values when concretizing
+	Lazy        bool           `json:"lazy"`
 	Twin        bool           `json:"twin"`
 	QueryMs     int            `json:"query_ms"`
 	Group       string         `json:"group"`
